@@ -44,6 +44,12 @@ def parseVar (s : String) : Option MutVar :=
       some ⟨k, c, h, p⟩
   | _ => none
 
+def parseDOp (s : String) : Option DOp :=
+  if s = "s" then some .step
+  else if s = "r" then some .reinit
+  else if s.startsWith "a" then (s.drop 1).toNat?.map DOp.assign
+  else none
+
 def fmtOutcome (o : Outcome) : String :=
   s!"{fmtRat o.gamma.shape} {fmtRat o.gamma.rate} {fmtRat o.tLog} {fmtRat o.tLin} {fmtBool o.exact}"
 
@@ -88,6 +94,13 @@ def step : List String → String
     | some nv, some n =>
       let st := directRun (fun k => k) n (directValidateN nv (chainInit 0 0))
       s!"{fmtNatList st.samples} {fmtNatList st.acc} {st.current} {st.pos}"
+    | _, _ => "bad-op"
+  | "directm" :: t0 :: ops =>
+    match t0.toNat?, ops.mapM parseDOp with
+    | some t0, some ops =>
+      let st := mRun (mInit t0) ops
+      let ss := if st.samples.isEmpty then "_" else ",".intercalate (st.samples.map (fun p => s!"{p.1}:{p.2}"))
+      s!"{ss} {fmtNatList st.acc} {st.cur}"
     | _, _ => "bad-op"
   | _ => "bad-op"
 
